@@ -379,7 +379,16 @@ def rule_pa_litorder(cx, rep, port):
     ssl = p.func(mod, 'separate_string_literals')
     param = ssl.args.args[0].arg
     reps = [c for c in walk_no_nested(ssl) if isinstance(c, ast.Call) and isinstance(c.func, ast.Attribute) and c.func.attr == 'replace']
-    bad = [c for c in reps if is_name(c.func.value, param)]
+    def extracts(c):
+        # param.replace(<the literal pattern>, <function>): the extraction itself, written as a substitution with a callback
+        if not (is_name(c.func.value, param) and len(c.args) == 2):
+            return False
+        a0 = c.args[0]
+        pat_ = a0.args[0].value if isinstance(a0, ast.Call) and dotted(a0.func) == '__regex__' and a0.args and isinstance(a0.args[0], ast.Constant) else (const_value(a0) if isinstance(const_value(a0), str) else None)
+        if pat_ is None and isinstance(a0, ast.Name):
+            pat_ = next((st_.pattern for st_ in regex_sites(cx, port, [mod]) if st_.func is ssl and st_.pattern), None)
+        return isinstance(pat_, str) and '"' in pat_ and "'" in pat_ and not isinstance(c.args[1], ast.Constant)
+    bad = [c for c in reps if is_name(c.func.value, param) and not extracts(c)]
     good = [c for c in reps if not is_name(c.func.value, param)]
     if bad:
         rep.violated('tab rewrite', bad[0], 'characters are rewritten in the raw query text before the string literals are extracted: tabs inside literals are changed')
